@@ -6,6 +6,7 @@ import (
 	"fmt"
 	"sort"
 	"testing"
+	"time"
 
 	"pgregory.net/rapid"
 
@@ -50,7 +51,7 @@ func (s step) String() string {
 }
 
 var kinds = []string{"request", "request", "request", "request", "withdraw", "withdraw", "withdraw", "withdraw-not-held",
-	"complete", "complete", "deliver", "deliver", "deliver", "fail", "evict", "idle-tick", "idle-tick", "setconf", "periodic", "avail", "avail"}
+	"complete", "data-good", "data-good", "data-bad", "data-dup", "data-dup", "deliver", "deliver", "deliver", "fail", "evict", "idle-tick", "idle-tick", "setconf", "periodic", "avail", "avail"}
 
 func isClosed(ch <-chan struct{}) bool {
 	select {
@@ -96,6 +97,55 @@ func run(rt *rapid.T, npieces int, idleRate uint32, steps []step) (fail string, 
 			return fmt.Sprintf("handling %T returned %v", e, herr) + describe()
 		}
 		return ""
+	}
+	// the real completion path (TorData{Complete} -> finalisePiece -> hash ->
+	// TorHave): verifications observed vs completions announced, per piece
+	verifs, announces := map[int]int{}, map[int]int{}
+	// drain moves what the finalising goroutines have told the torrent into
+	// queued; wait: how long to wait (real time) for at least one event
+	var until func() bool // drain returns as soon as this holds (nil: only when the time is up)
+	drain := func(wait time.Duration) string {
+		deadline := time.Now().Add(wait)
+		defer func() { until = nil }()
+		for {
+			if until != nil && until() {
+				return ""
+			}
+			select {
+			case e := <-t.Event:
+				switch e := e.(type) {
+				case peer.TorHave:
+					if e.Have {
+						announces[int(e.Index)]++
+						if announces[int(e.Index)] > verifs[int(e.Index)] {
+							return fmt.Sprintf("completion of piece %d announced %d time(s), it passed verification %d time(s): consumers are woken for a piece that was not verified", e.Index, announces[int(e.Index)], verifs[int(e.Index)]) + describe()
+						}
+						labels["completion-announced-by-finalisePiece"] = true
+					}
+					queued = append(queued, e)
+				default:
+					if f := handle(e); f != "" {
+						return f
+					}
+				}
+				continue
+			default:
+			}
+			if !time.Now().Before(deadline) {
+				return ""
+			}
+			time.Sleep(50 * time.Microsecond)
+		}
+	}
+	// settled waits until the piece is no longer being hashed
+	settled := func(i int) bool {
+		for k := 0; k < 200000; k++ {
+			if t.Pieces.Complete(uint32(i)) || t.Pieces.PieceEmpty(uint32(i)) {
+				return true
+			}
+			time.Sleep(50 * time.Microsecond)
+		}
+		return false
 	}
 	closeWaiters := func(piece int, why string) {
 		for _, w := range waiters {
@@ -153,6 +203,9 @@ func run(rt *rapid.T, npieces int, idleRate uint32, steps []step) (fail string, 
 	for _, s := range steps {
 		i := s.I % npieces
 		c := cons[s.C%len(cons)]
+		if f := drain(0); f != "" {
+			return f, labels, hist
+		}
 		switch s.Kind {
 		case "request":
 			hist = append(hist, s.String())
@@ -281,6 +334,50 @@ func run(rt *rapid.T, npieces int, idleRate uint32, steps []step) (fail string, 
 				closeWaiters(int(h.Index), "TorHave(true) for it was processed")
 				labels["completion-delivered"] = true
 			}
+		case "data-good", "data-bad", "data-dup":
+			// the way data really arrives: the block is stored and the torrent is
+			// told (TorData); when that block completes the piece, the real
+			// finalisePiece hashes it in a goroutine and announces the result
+			// itself.  data-dup: a second peer reports the same last block.
+			was := t.Pieces.Complete(uint32(i))
+			hist = append(hist, s.String())
+			complete := s.Kind == "data-dup"
+			if s.Kind != "data-dup" && !was {
+				d := append([]byte{}, x.Data(i, 0, 16384)...)
+				if s.Kind == "data-bad" {
+					d[0] ^= 1
+					labels["hash-failure-through-finalisePiece"] = true
+				}
+				_, c, _ := t.Pieces.AddData(uint32(i), 0, d, ^uint32(0))
+				complete = c
+			}
+			if f := handle(peer.TorData{Index: uint32(i), Begin: 0, Length: 16384, Complete: complete}); f != "" {
+				return f, labels, hist
+			}
+			if !settled(i) {
+				rt.Skip("inconclusive: hashing did not end")
+			}
+			if !was && t.Pieces.Complete(uint32(i)) {
+				verifs[i]++
+				until = func() bool { return announces[i] == verifs[i] }
+				if f := drain(5 * time.Second); f != "" {
+					return f, labels, hist
+				}
+				if announces[i] != verifs[i] {
+					return fmt.Sprintf("piece %d passed verification, and 5 s later its completion has not been announced", i) + describe(), labels, hist
+				}
+			} else {
+				if s.Kind == "data-dup" {
+					labels["duplicate-completion-report"] = true
+					if !was {
+						labels["duplicate-completion-report-for-unverified-piece"] = true
+					}
+				}
+				// nothing should come; give a wrong announcement a moment to show up
+				if f := drain(300 * time.Microsecond); f != "" {
+					return f, labels, hist
+				}
+			}
 		case "fail":
 			if t.Pieces.Complete(uint32(i)) {
 				continue
@@ -324,6 +421,9 @@ func run(rt *rapid.T, npieces int, idleRate uint32, steps []step) (fail string, 
 		if f := check("after " + hist[len(hist)-1]); f != "" {
 			return f, labels, hist
 		}
+	}
+	if f := drain(time.Millisecond); f != "" {
+		return f, labels, hist
 	}
 	// consumers close: each withdraws what it still holds, exactly once
 	for ci, c := range cons {
